@@ -22,6 +22,7 @@ type MMap struct {
 }
 
 func NewMMap(fileName string) (*MMap, error) {
+	defer verifIO("open", fileName, 0)()
 	fd, err := os.OpenFile(fileName, os.O_CREATE|os.O_RDWR, DataFilePerm)
 	if err != nil {
 		return nil, err
@@ -68,6 +69,7 @@ func (m *MMap) Read(b []byte, offset int64) (int, error) {
 }
 
 func (m *MMap) Write(b []byte) (int, error) {
+	defer verifIO("write", m.file.Name(), int64(len(b)))()
 	if err := m.remap(m.virtualSize, len(b)); err != nil {
 		return 0, err
 	}
@@ -77,10 +79,12 @@ func (m *MMap) Write(b []byte) (int, error) {
 }
 
 func (m *MMap) Sync() error {
+	defer verifIO("sync", m.file.Name(), 0)()
 	return m.activeMap.Flush()
 }
 
 func (m *MMap) Close() error {
+	defer verifIO("close", m.file.Name(), 0)()
 	if err := m.activeMap.Flush(); err != nil {
 		return err
 	}
@@ -98,6 +102,7 @@ func (m *MMap) Size() (int64, error) {
 }
 
 func (m *MMap) ResetFileSize() error {
+	defer verifIO("truncate", m.file.Name(), m.virtualSize)()
 	return m.file.Truncate(m.virtualSize)
 }
 
